@@ -16,6 +16,11 @@ def install_numpy_shim(env, *modules):
             pass
 
 
+def values(n):
+    """domain values that are neither their own index nor all truthy"""
+    return [10, 0, 5, 7, 3, 8][:n]
+
+
 def domain(name, values):
     from pydcop.dcop.objects import Domain
     return Domain(name, "", list(values))
